@@ -98,8 +98,10 @@ CHECKS = [
          text="no-panic of the flat decoders, compositionally: (prim) every pallas-codec Decoder primitive from MIR on an arbitrary "
               "decoder state (symbolic buffer up to a stated capacity, symbolic position/used_bits under the representation invariant); "
               "(dec) uplc's Decode impls (Program, Term, Constant, types, builtins, binders) from MIR with the primitives replaced by "
-              "havoc stubs returning any Ok/Err. PARTIAL: CBOR/hex, JSON, UPLC text parser and the Aiken lexer/parser/formatter are "
-              "outside the claim; the two panics in pallas-codec are listed known findings",
+              "havoc stubs returning any Ok/Err; (act) the semantic actions of the UPLC text grammar over matched text (builtin-name lookup and "
+              "every rule `x:$(PATTERN) {action}`, text symbolic in the regular language of PATTERN, <= 24/40 bytes) from MIR, panics replayed "
+              "through uplc::parser::program; (hex) Program::from_hex prefix handling. PARTIAL: CBOR, JSON, the matching code of the UPLC text "
+              "parser and the Aiken lexer/parser/formatter are outside the claim; the two panics in pallas-codec are listed known findings",
          note=M_NOTE, tech="SMT-based symbolic execution of rustc MIR (z3): compositional panic-path feasibility of decoders"),
 ]
 
